@@ -501,6 +501,7 @@ theorem CInv_closed : Closed CInv where
   front := CInv_front
   siteCnt := fun _ _ h => h
   emitInj := fun _ _ _ _ _ h => h
+  note := fun _ h => h
   clock := fun _ _ h => h
   lastFlush := fun _ _ h => h
   gone := fun _ h => h
